@@ -27,6 +27,7 @@ class Ctx:
         self.seed = seed
         self.rng = random.Random(seed)
         self.driver = None
+        self.oracle = None
         self.quick = tier == "quick"
         self.notes = []
 
@@ -109,6 +110,10 @@ def main(prop, tier, seed, replay_path=None):
             else:
                 ctx.notes.append("coqchk -o: " + " ".join(clog.split())[-400:])
         drv_err = None
+        if getattr(mod, "ORACLE", None):
+            ctx.oracle, oerr = core.get_driver(mod.ORACLE)
+            if ctx.oracle is None:
+                broken.append({"kind": "oracle", "what": "specification oracle does not build: " + (oerr or "")[-400:]})
         if getattr(mod, "DRIVER", None):
             ctx.driver, drv_err = core.get_driver(mod.DRIVER)
             if ctx.driver is None:
@@ -122,7 +127,10 @@ def main(prop, tier, seed, replay_path=None):
     try:
         signal.alarm(limit)
         try:
-            corr = mod.correspondence(ctx)
+            if ctx.driver is not None or not getattr(mod, "DRIVER", None):
+                corr = mod.correspondence(ctx)
+            else:
+                corr["rule"] = "skipped: the executable model does not build (reported as a broken obligation)"
         except Watchdog:
             raise
         except Exception as e:
@@ -143,6 +151,8 @@ def main(prop, tier, seed, replay_path=None):
         signal.alarm(0)
         if ctx.driver:
             ctx.driver.close()
+        if ctx.oracle:
+            ctx.oracle.close()
 
     # 6 verdict
     kf = core.known_findings()
